@@ -1876,6 +1876,16 @@ att_mnemo_table = {
         'bound',
         'pause',
         'endbr32', 'endbr64',
+        # system / privileged instructions, same spelling as Intel
+        'clts', 'hlt', 'into', 'invd', 'iret', 'monitor', 'mwait',
+        'rdmsr', 'rdpmc', 'rdtsc', 'rsm', 'syscall', 'sysenter', 'sysexit',
+        'sysret', 'wbinvd', 'wrmsr', 'arpl', 'xlat',
+        'lidt', 'lldt', 'lmsw', 'ltr', 'sgdt', 'sidt', 'sldt', 'smsw', 'str',
+        'verr', 'verw', 'invlpg',
+        'loop', 'loope', 'loopne',
+        'popfw', 'pushfw',
+        'ftst', 'fxtract', 'fbld', 'fbstp', 'fldenv', 'fnsave', 'fnstenv',
+        'frstor', 'fcomi', 'fcomip',
         ] + mnemo_mmx + mnemo_prefetch + mnemo_float_optional_suffix,
     'suffix_one_ptr': [ {
             'b': x86_afs.u08,
@@ -1884,7 +1894,8 @@ att_mnemo_table = {
         'lea', 'mov', 'xchg', 'push', 'pop',
         'test', 'cmp', 'and', 'xor', 'or', 'not', 'neg',
         'add', 'adc', 'sub', 'mul', 'div', 'imul', 'idiv', 'inc', 'dec', 'xadd',
-        'sal', 'sar', 'shl', 'shr', 'rol', 'ror', 'sbb', 'shld', 'shrd', 'bsf', 'bsr',
+        'sal', 'sar', 'shl', 'shr', 'rol', 'ror', 'rcl', 'rcr', 'sbb', 'shld', 'shrd', 'bsf', 'bsr',
+        'lar', 'lsl', 'lds', 'les', 'lfs', 'lgs', 'lss',
         'bt', 'bts', 'btr', 'btc', 'lgdt',
         'cvtsi2sd', 'cvtsi2ss', 'fisttp',
         'cmpxchg', 'movnti', 'rdrand',
@@ -1911,6 +1922,10 @@ att_mnemo_table = {
         'popf':  'popfd',
         'popfl': 'popfd',
         'ljmp':  'jmpf',
+        'lcall': 'callf',
+        'lret':  'retf',
+        'popal': 'popad',
+        'pushal':'pushad',
         # sign extend
         'cbtw': 'cbw',
         'cwtl': 'cwde',
